@@ -561,7 +561,9 @@ def task_codes(ctx):
 
 # ----------------------------------------------------------------------
 # FASTA texts
-HEADER_CHARS = "abcdefghijklmnopqrstuvwxyzABCDEFGHIJKLMNOPQRSTUVWXYZ0123456789 |_.-:>[]=,/"
+# the description after '>' is free text: besides the usual characters a few that str.splitlines() would break a line
+# at although no text file reader does (vertical tab, form feed, the ASCII separators) - they are in-line characters
+HEADER_CHARS = "abcdefghijklmnopqrstuvwxyzABCDEFGHIJKLMNOPQRSTUVWXYZ0123456789 |_.-:>[]=,/" + "\t\x0b\x0c\x1c\x1d\x1e;#*"
 
 
 def fasta_strategy():
